@@ -80,17 +80,17 @@ func (w *World) asyncWriteDone(aid int, cs *connState, opID, n int, c gnet.Conn,
 			return
 		}
 		if cs.inOnClose {
-			cs.tail = append(cs.tail, wEntry{opID, n})
+			cs.tail = append(cs.tail, wEntry{id: opID, n: n})
 			return
 		}
-		cs.W = append(cs.W, wEntry{opID, n})
+		cs.W = append(cs.W, wEntry{id: opID, n: n})
 		cs.wBytes += n
 		return
 	}
 	if !errors.Is(err, net.ErrClosed) && cs.failed == nil {
 		// the write itself failed (not: the connection had been closed before):
 		// a proper prefix may be on the wire, the connection closes
-		cs.failed = &wEntry{opID, n}
+		cs.failed = &wEntry{id: opID, n: n}
 		cs.peerCause = true
 	}
 }
